@@ -492,8 +492,12 @@ class IndentationFeatures(object):
                 grad = np.gradient(y)
                 gz = np.abs(np.sum(grad[grad > 0]))
                 lz = np.abs(np.sum(grad[grad < 0]))
-                value = np.sum(indidx) * lz / gz
-                value = np.log(1 + value) / 10
+                if gz > 0:
+                    value = np.sum(indidx) * lz / gz
+                    value = np.log(1 + value) / 10
+                else:
+                    # the force never increases in the indentation part
+                    value = np.nan
             else:
                 value = np.nan
         else:
